@@ -322,9 +322,67 @@ func vC04BearerSequence(t *testing.T, out *vEmitter) {
 	}
 }
 
+// vC04ExtraIssuerAudiences: an extra JWT issuer is configured as "<issuer>=<audience>", the audience being everything
+// after the FIRST "=" (audiences are URIs with a query, base64 with padding, key=value).  A bearer token of that issuer
+// makes a session iff its audience is exactly the configured one.
+func vC04ExtraIssuerAudiences(t *testing.T, out *vEmitter) {
+	for _, aud := range []string{"api://reports?env=prod", "YXVkaWVuY2U=", "tenant=acme=eu", "k=", clientID, "plain-audience"} {
+		aud := aud
+		e := vTryNewEnv(t, vEnvCfg{oidc: true, extraJWT: true, mod: func(o *options.Options) {
+			o.SkipJwtBearerTokens = true
+			o.ExtraJwtIssuers = []string{vIssuer2 + "=" + aud}
+			o.Providers[0].OIDCConfig.InsecureSkipNonce = true
+		}})
+		if e == nil {
+			out.Violation("oidc/extra-issuer-config-refused", "an extra JWT issuer with this audience does not validate", map[string]interface{}{"audience": aud})
+			continue
+		}
+		cands := map[string]bool{aud: true, aud + "x": true, "other": true, clientID: true}
+		for i := range aud {
+			if aud[i] == '=' {
+				cands[aud[:i]] = true
+				cands[aud[:i+1]] = true
+			}
+		}
+		accepted := 0
+		for tokAud := range cands {
+			if tokAud == "" {
+				continue
+			}
+			for _, form := range []string{"string", "list"} {
+				var audClaim interface{} = tokAud
+				if form == "list" {
+					audClaim = []interface{}{"unrelated", tokAud}
+				}
+				raw := vJWT(vKeyRSA, "RS256", vClaims2("user@example.com", map[string]interface{}{"aud": audClaim}))
+				req, err := vRawRequest(vBuildRaw("GET", "/oauth2/auth", "app.example.com", [][2]string{{"Authorization", "Bearer " + raw}}, ""))
+				if err != nil {
+					continue
+				}
+				res := e.serve(req)
+				got := res.Status == 202
+				want := tokAud == aud
+				if got {
+					accepted++
+				}
+				out.Obs("extra-issuer-audience", true, vL(vS(aud), vS(tokAud), vS(form), vI(int64(res.Status))))
+				out.Stat("extra_issuer_audience_tokens", 1)
+				if got != want {
+					out.Violation("oidc/session-from-unverified-token", "a bearer token of the extra issuer was accepted for another audience than the configured one (or refused for the configured one)",
+						map[string]interface{}{"configured": vIssuer2 + "=" + aud, "token_audience": tokAud, "form": form, "status": res.Status})
+				}
+			}
+		}
+		if accepted == 0 {
+			out.Violation("control/no-bearer-token-accepted", "no token of the extra issuer was accepted for its configured audience: the sweep checks nothing", map[string]interface{}{"audience": aud})
+		}
+	}
+}
+
 func driveC04(t *testing.T, out *vEmitter) {
 	vKeys()
 	defer vC04BearerSequence(t, out)
+	defer vC04ExtraIssuerAudiences(t, out)
 	cfgs := []vOCfg{
 		{name: "default", audClaims: []string{"aud"}, extraAud: []string{"extra-aud"}, emailClaim: "email"},
 		{name: "custom-aud-claim", audClaims: []string{"client", "aud"}, emailClaim: "email"},
@@ -640,6 +698,7 @@ func vC05AlphaConfig(t *testing.T, out *vEmitter) {
 
 func driveC05(t *testing.T, out *vEmitter) {
 	vKeys()
+	defer vC05MethodSpellings(t, out)
 	defer vC05AlphaConfig(t, out)
 	defer vC05GenericPKCE(t, out)
 	vC05Legacy(t, out)
@@ -1547,6 +1606,56 @@ func vC05Legacy(t *testing.T, out *vEmitter) {
 		if l.Method != want || (want != "") != (l.Challenge != "") || (want != "") != (verifier != "") {
 			out.Violation("pkce-nonce/challenge-missing", "the authorization request carries no code challenge although a method is configured",
 				map[string]interface{}{"code_challenge_method": c.ccm, "force_code_challenge_method": c.force, "sent_method": l.Method, "challenge_sent": l.Challenge != "", "verifier_stored": verifier != ""})
+		}
+	}
+}
+
+// vC05MethodSpellings: the configured code-challenge method in every spelling an environment variable, a mounted file or
+// a hurried operator produces.  Whatever the proxy does with a spelling that is neither S256 nor plain (refuse the
+// configuration, refuse the login), an authorization request it does send carries a challenge that matches the method
+// it declares, and the verifier appears in it only under the declared method "plain".
+func vC05MethodSpellings(t *testing.T, out *vEmitter) {
+	for _, m := range []string{"S256", "plain", "s256", "SHA256", "S256 ", " S256", "S256\n", "Plain", "PLAIN", "S512", "none", "sha-256"} {
+		m := m
+		e := vTryNewEnv(t, vEnvCfg{oidc: true, mod: func(o *options.Options) {
+			o.Providers[0].CodeChallengeMethod = m
+		}})
+		if e == nil {
+			out.Stat("c05_method_spelling_rejected", 1)
+			continue
+		}
+		b := e.newBrowser("https://app.example.com")
+		l := b.start("/x")
+		out.Stat("c05_method_spellings", 1)
+		sent := l.Start.Status == 302 && strings.HasPrefix(l.Start.Location(), vIssuer)
+		verifier := ""
+		if c := vCsrfCookieOf(e, l.Start); c != nil {
+			_, _, verifier = vCsrfRaw(e.opts.Cookie.Secret, c.Value)
+		}
+		out.Obs("method-spelling", true, vL(vS(m), vI(int64(l.Start.Status)), vBool(sent), vS(l.Method), vBool(l.Challenge != ""), vBool(verifier != "" && l.Challenge == verifier)))
+		if !sent {
+			continue // refused: nothing was sent to the browser
+		}
+		sum := sha256.Sum256([]byte(verifier))
+		s256 := base64.RawURLEncoding.EncodeToString(sum[:])
+		det := map[string]interface{}{"configured_method": m, "declared_method": l.Method, "challenge_equals_verifier": l.Challenge == verifier,
+			"challenge_is_s256_of_verifier": l.Challenge == s256, "location": l.Start.Location()}
+		if verifier != "" && l.Method != "plain" && (strings.Contains(l.Start.Location(), verifier) || strings.Contains(l.Start.Body, verifier)) {
+			out.Violation("pkce-nonce/verifier-in-clear", "the code verifier appears in clear in what is sent to the browser although the declared challenge method is not plain", det)
+		}
+		switch l.Method {
+		case "S256":
+			if l.Challenge != s256 {
+				out.Violation("pkce-nonce/challenge-not-derived", "the code challenge is not the declared derivation of the stored verifier", det)
+			}
+		case "plain":
+			if l.Challenge != verifier {
+				out.Violation("pkce-nonce/challenge-not-derived", "the code challenge is not the declared derivation of the stored verifier", det)
+			}
+		default:
+			if l.Challenge != "" || verifier != "" {
+				out.Violation("pkce-nonce/challenge-not-derived", "an authorization request declares a challenge method that is neither S256 nor plain: no identity provider can check the challenge it carries", det)
+			}
 		}
 	}
 }
